@@ -80,6 +80,7 @@ MIN_COUNTERS = {
     'fired_shortcut_BinaryOpUGen': 50, 'fired_shortcut_MulAdd': 10,
     'operator_units_opcode_checked': 300, 'feature_mixed-rate-channels': 500,
     'feature_width-first-unit': 500, 'width_first_pairs_checked': 1000,
+    'feature_array-control-arithmetic': 300, 'folding_agnostic_programs': 2000,
     'programs_compiled_after_a_width_first_definition': 1000,
 }
 
@@ -504,6 +505,49 @@ def install_counters(fired):
         wrap_new1(c)
 
 
+def raise_site(e):
+    """'graph-function' when the exception is raised by the statement of the
+    graph function itself (Python semantics of the objects the library
+    handed out), else innermost library frame"""
+    tb = e.__traceback__
+    last = None
+    while tb is not None:
+        last = tb
+        tb = tb.tb_next
+    if last is not None and last.tb_frame.f_code.co_filename.startswith(
+            '<program'):
+        return 'graph-function'
+    sites = tb_sites(e)
+    return ':'.join(sites[-1]) if sites else 'graph-function'
+
+
+def mechanism_suffix(prog, exc=None, site=None):
+    """class of input that names the mechanism of a failure (keys only)"""
+    feats = prog.get('features', ())
+    if exc is not None:
+        # raised by the graph function itself on a plain Python object ...
+        if site == 'graph-function' and 'array-control-arithmetic' in feats \
+                and "'list'" in safe(str, exc):
+            return '/array-control-is-a-plain-list'
+        if 'array-control-arithmetic' in feats and any(
+                t in safe(str, exc) for t in ('list', 'sequence')):
+            return '/array-control-is-a-plain-list'
+        if prog.get('folding_agnostic') and prog.get('foldable_nodes'):
+            msg = safe(str, exc)
+            if isinstance(exc, ZeroDivisionError) or (
+                    isinstance(exc, (AttributeError, TypeError)) and any(
+                        t in msg for t in ("'float'", "'int'", "'bool'"))):
+                return '/operand-folded-to-number'
+            if isinstance(exc, ValueError) and 'rate' in msg:
+                return '/operand-folded-to-number'
+        return ''
+    if 'array-control-arithmetic' in feats:
+        return '/array-control-arithmetic'
+    if prog.get('folding_agnostic') and prog.get('foldable_nodes'):
+        return '/operand-folded-to-number'
+    return ''
+
+
 def run_shard(spec, acc):
     from vf import gen_graph as gg, opcodes as oc, scgf
     fired = Counter()
@@ -522,16 +566,20 @@ def run_shard(spec, acc):
             v[:] = []
         acc.count('programs_generated')
         acc.count('source_nodes', len(prog['nodes']))
+        if prog.get('folding_agnostic'):
+            acc.count('folding_agnostic_programs')
+            if prog.get('foldable_nodes'):
+                acc.count('folding_agnostic_programs_with_foldable_nodes')
         for ft in prog.get('features', ()):
             acc.count('feature_' + ft)
         try:
             sd = gg.build(prog)
             raw = bytes(sd.as_bytes())
         except Exception as e:
-            sites = tb_sites(e)
-            site = ':'.join(sites[-1]) if sites else 'graph-function'
+            site = raise_site(e)
             acc.case(sig, nontrivial=sum(fired.values()) > f0)
-            acc.violation(f'C01/compile-raises/{type(e).__name__}/{site}',
+            acc.violation(f'C01/compile-raises/{type(e).__name__}/{site}'
+                          + mechanism_suffix(prog, e, site),
                           {'case': i, 'error': f'{type(e).__name__}: '
                                                 + safe(lambda: str(e)[:300]),
                            'script': gg.script(prog),
@@ -572,6 +620,9 @@ def run_shard(spec, acc):
             found = (0, wfo[0])
         if found:
             k, (key, detail) = found
+            if not key.startswith(('C01/arith-rate', 'C01/width-first',
+                                   'C01/opcode')):
+                key += mechanism_suffix(prog)
             acc.violation(key, {'case': i, 'rho': k, 'detail': detail,
                                 'script': gg.script(prog),
                                 'definition': d.describe()['units']})
